@@ -287,6 +287,41 @@ def special_points_part(run, cases, seed):
                               (c.name, c.key, rep.get("inputs"), rep.get("lhs_grads"), rep.get("rhs_grads")), key={**c.key, "clause": "exact zeros"}, replay=rep)
 
 
+def large_batch_part(run, seed):
+    """Bounded, native (float64): the identities of the convolutions and of linear at batch sizes around and beyond 64 and 128 (blocked / chunked contractions have their
+    remainders there); values, gradients and second-sweep gradients of the two forms must coincide."""
+    import synapgrad.functional as F
+    import synapgrad.nn.functional as NF
+    L = Leaf
+    cs = []
+    for N in (63, 64, 65, 70, 130):
+        def conv2_rhs(T, N=N):
+            cols = NF.unfold(T["x"], (2, 2), (1, 1), (1, 1), (0, 0))
+            out = F.matmul(F.unsqueeze(F.reshape(T["w"], (2, -1)), 0), cols) + F.reshape(T["b"], (1, 2, 1))
+            return F.reshape(out, (N, 2, 2, 1))
+        cs.append(PairCase("conv2d=unfold;matmul", {"N": N, "HW": (3, 2), "kernel": (2, 2)}, [L("x", (N, 1, 3, 2)), L("w", (2, 1, 2, 2)), L("b", (2,))],
+                           lambda T: NF.conv2d(T["x"], T["w"], T["b"]), conv2_rhs))
+
+        def conv1_rhs(T, N=N):
+            cols = NF.unfold(F.unsqueeze(T["x"], 2), (1, 2), (1, 1), (1, 1), (0, 0))
+            return F.matmul(F.unsqueeze(F.reshape(T["w"], (2, -1)), 0), cols) + F.reshape(T["b"], (1, 2, 1))
+        cs.append(PairCase("conv1d=unfold;matmul", {"N": N, "L": 3, "kernel": 2}, [L("x", (N, 2, 3)), L("w", (2, 2, 2)), L("b", (2,))],
+                           lambda T: NF.conv1d(T["x"], T["w"], T["b"]), conv1_rhs))
+        cs.append(PairCase("linear=x@W.T+b", {"N": N, "in": 2, "out": 2}, [L("x", (N, 2)), L("w", (2, 2)), L("b", (2,))],
+                           lambda T: NF.linear(T["x"], T["w"], T["b"]), lambda T: F.matmul(T["x"], F.transpose(T["w"], 0, 1)) + T["b"]))
+    for c in cs:
+        run.rt(("large-batch", c.name, str(sorted(c.key.items()))))
+        try:
+            with np.errstate(all="ignore"):
+                rep = c._native(seed)
+        except Exception as e:
+            run.error("large batch of %s: %s: %s" % (c.name, type(e).__name__, e))
+            continue
+        if rep.get("reproduced"):
+            run.violation("%s.forms_coincide_at_large_batches" % c.name, "%s %s: the two forms differ natively%s" % (c.name, c.key, (" (" + rep["native_exception"] + ")") if rep.get("native_exception") else ""),
+                          key={**c.key, "clause": "large batch"}, replay={k: v for k, v in rep.items() if k != "inputs"})
+
+
 def dtype_part(run, seed):
     """bounded, native: the operator identities a - b = a + (-b) and a / b = a * b**-1 on every pairing of operand dtypes a Tensor can hold (floats, signed and
     UNSIGNED integers, bool): both sides are library expressions; they must agree in value (or be refused alike)"""
@@ -348,6 +383,14 @@ def identities(tier):
                            lambda T: NF.linear(T["x"], T["w"], T["b"]), lambda T: F.matmul(T["x"], F.transpose(T["w"], 0, 1)) + T["b"], functions=(NFN + "linear",)))
         cs.append(PairCase("linear=x@W.T", {"N": N, "in": I, "out": O, "bias": False}, [L("x", (N, I)), L("w", (O, I))],
                            lambda T: NF.linear(T["x"], T["w"]), lambda T: T["x"] @ T["w"].transpose(0, 1)))
+    # the input as plain data (first layer of a model) or tracked, a bias of any shape that broadcasts against the product (per sample, per position), inputs of rank 3
+    for xs, bs, xflag in [((2, 3), (2,), False), ((2, 3), (2, 2), False), ((2, 3), (2, 2), True), ((2, 3), (1, 2), False), ((2, 3), (2, 1), False), ((2, 2, 3), (2, 2), False),
+                          ((2, 2, 3), (2,), False), ((2, 2, 3), (2, 1, 2), True)]:
+        cs.append(PairCase("linear=x@W.T+b", {"x_shape": xs, "bias_shape": bs, "x_requires_grad": xflag, "out": 2}, [L("x", xs, "any", xflag), L("w", (2, 3)), L("b", bs)],
+                           lambda T: NF.linear(T["x"], T["w"], T["b"]), lambda T: F.matmul(T["x"], F.transpose(T["w"], 0, 1)) + T["b"], functions=(NFN + "linear",)))
+    for xs in [(2, 3), (2, 2, 3)]:
+        cs.append(PairCase("linear=x@W.T", {"x_shape": xs, "x_requires_grad": False, "out": 2, "bias": False}, [L("x", xs, "any", False), L("w", (2, 3))],
+                           lambda T: NF.linear(T["x"], T["w"]), lambda T: F.matmul(T["x"], F.transpose(T["w"], 0, 1)), functions=(NFN + "linear",)))
     for sa in [(2, 2), (2,), (1, 2), ()]:
         cs.append(PairCase("addmm=a+b@c", {"a_shape": sa}, [L("a", sa), L("b", (2, 3)), L("c", (3, 2))],
                            lambda T: F.addmm(T["a"], T["b"], T["c"]), lambda T: T["a"] + T["b"] @ T["c"], functions=(FN + "addmm",)))
@@ -533,5 +576,6 @@ def main(tier="quick", seed=0, procs=None, only=None):
                "(bounded run-time part, counted as bounded evaluations, not as discharged obligations)")
     float_stress(run, cases, seed)
     special_points_part(run, cases, seed)
+    large_batch_part(run, seed)
     dtype_part(run, seed)
     return run.finish()
